@@ -18,6 +18,9 @@ pub enum Case {
     },
     /// type table of mapped_value and count errors
     Types { k: usize },
+    /// history independence: ONE spline object solved several times in a row (same sites, different end
+    /// conditions; then different sites) must each time equal a fresh object solved once
+    Resolve { k: usize, interior: Vec<(usize, usize)> },
 }
 
 fn inverse_exact(b: &[Vec<Rat>]) -> Option<Vec<Vec<Rat>>> {
@@ -319,6 +322,52 @@ pub fn check(case: &Case, idx: u64, acc: &mut Acc) {
                 acc.sample(|| json!({"k": k, "t": t, "tau": tau_f, "left_n": left_n, "right_n": right_n, "condition": cnd}));
             }
         }
+        Case::Resolve { k, interior } => {
+            let k = *k;
+            let tr = knots(k, interior);
+            let t: Vec<f64> = tr.iter().map(|r| r.f()).collect();
+            let n = t.len() - k;
+            let even: Vec<f64> = (0..n).map(|j| 4.0 * j as f64 / (n - 1) as f64).collect();
+            let mut natural = vec![0.0, 0.0];
+            if n >= 5 {
+                natural.extend((1..n - 3).map(|j| 4.0 * j as f64 / (n - 3) as f64 * 0.999));
+            }
+            natural.extend([4.0, 4.0]);
+            let shifted: Vec<f64> = even.iter().enumerate().map(|(j, x)| if j == 0 || j == n - 1 { *x } else { x + 0.0625 }).collect();
+            let y: Vec<f64> = (0..n).map(|j| gen_rat(j).f()).collect();
+            // (sites, left_n, right_n) steps
+            let mut steps: Vec<(&Vec<f64>, usize, usize)> = vec![(&even, 1, 1), (&even, 2, 2), (&even, 0, 0), (&even, 1, 2), (&shifted, 0, 0), (&even, 0, 0), (&even, 2, 1)];
+            if n >= 5 && k >= 3 {
+                steps.push((&natural, 2, 2));
+                steps.push((&natural, 1, 2));
+            }
+            let mut reused = PPSpline::<f64>::new(k, t.clone(), None);
+            let yd: Vec<Dual> = y.iter().enumerate().map(|(j, v)| Dual::new(*v, vec![format!("y{}", j)])).collect();
+            let mut reused_d = PPSpline::<Dual>::new(k, t.clone(), None);
+            for (si, (tau, l, r)) in steps.iter().enumerate() {
+                if *l >= k || *r >= k {
+                    continue;
+                }
+                acc.evals_add(2);
+                acc.nontrivial();
+                let mut fresh = PPSpline::<f64>::new(k, t.clone(), None);
+                let (a, b) = (reused.csolve(tau, &y, *l, *r, false).is_ok(), fresh.csolve(tau, &y, *l, *r, false).is_ok());
+                let same = a == b && (!a || (reused.c().as_ref().unwrap().iter().zip(fresh.c().as_ref().unwrap().iter()).all(|(p, q)| p.to_bits() == q.to_bits() || (p.is_nan() && q.is_nan()))));
+                if !same {
+                    acc.violate("resolve/f64/differs-from-fresh-object", idx, cj(), json!({"step": si, "sites": tau, "left_n": l, "right_n": r, "fresh": format!("{:?}", fresh.c())}), json!(format!("{:?}", reused.c())));
+                }
+                let mut fresh_d = PPSpline::<Dual>::new(k, t.clone(), None);
+                let (a, b) = (reused_d.csolve(tau, &yd, *l, *r, false).is_ok(), fresh_d.csolve(tau, &yd, *l, *r, false).is_ok());
+                let same = a == b && (!a || reused_d == fresh_d);
+                if !same {
+                    acc.violate("resolve/Dual/differs-from-fresh-object", idx, cj(), json!({"step": si, "sites": tau, "left_n": l, "right_n": r}), json!("coefficients differ"));
+                }
+                acc.outcome(&(si, a, k));
+            }
+            if idx % 7 == 0 {
+                acc.sample(cj);
+            }
+        }
         Case::Types { k } => {
             let k = *k;
             let tr = knots(k, &[(2, 1)]);
@@ -416,6 +465,11 @@ pub fn cases(tier: Tier) -> Vec<Case> {
     for k in 2..=kmax {
         out.push(Case::Types { k });
         for interior in interior_configs(k) {
+            if interior.iter().map(|(_, m)| *m).sum::<usize>() <= 3 {
+                out.push(Case::Resolve { k, interior });
+            }
+        }
+        for interior in interior_configs(k) {
             let tot: usize = interior.iter().map(|(_, m)| *m).sum();
             if tot > 3 {
                 continue;
@@ -480,7 +534,8 @@ pub fn run(ctx: &Ctx, replay_file: Option<String>) -> ! {
          and Dual2 data: sensitivity to datum j = the unit-data spline, zero Hessian; Dual/Dual2 abscissas on float, \
          Dual and Dual2 splines: first / second derivative of the spline as sensitivities (chain rule with a non-unit \
          gradient and a non-zero Hessian on the abscissa); 3x3 type table of mapped_value; count mismatches and \
-         evaluation before solving are errors. Non-trivial: asymmetric end conditions or the natural layout.",
+         evaluation before solving are errors; one spline object solved repeatedly (same sites with different end \
+         conditions, then other sites) equals a fresh object solved once, bit for bit. Non-trivial: asymmetric end conditions or the natural layout.",
         json!({"max_order": ctx.tier.pick(4, 6), "cases": cs.len()}),
     )
     .assume("exact rational B-spline model (harness/src/bspline.rs)");
